@@ -4,6 +4,7 @@ package main
 
 import (
 	"fmt"
+	"go/types"
 
 	"golang.org/x/tools/go/ssa"
 )
@@ -289,4 +290,238 @@ var delWitnessesC13 = []Witness{
 var delWitnessesC12 = []Witness{
 	{Name: "fast-operand-position-not-recorded", Rule: "R-EVREMAP", Edits: []Edit{
 		{File: "compiler.go", Old: "			realIdxes[i+1] = int16(len(res) - 2)\n", New: "			_ = int16(len(res) - 2)\n"}}},
+}
+
+var statelessShapeWitnesses = []Witness{
+	{Name: "benign-stateless-answer-is-entry-not-nil", Benign: true, Doc: "benign patch P03_3", Edits: []Edit{
+		{File: "compiler.go", Old: "		if so == op {\n			if fn := c.OperatorMap[op]; fn != nil {\n				return true, fn\n			}\n			break\n		}", New: "		if so != op {\n			continue\n		}\n		fn := c.OperatorMap[op]\n		return fn != nil, fn"}}},
+	{Name: "stateless-answer-entry-not-nil-for-any-registered-name", Rule: "R-STATELESS", Edits: []Edit{
+		{File: "compiler.go", Old: "	for _, so := range c.StatelessOperators {\n		if so == op {\n			if fn := c.OperatorMap[op]; fn != nil {\n				return true, fn\n			}\n			break\n		}\n	}\n\n	return false, nil", New: "	for _, so := range c.StatelessOperators {\n		if so == op {\n			break\n		}\n	}\n	fn := c.OperatorMap[op]\n	return fn != nil, fn"}}},
+}
+
+var infixMapTableWitnesses = []Witness{
+	{Name: "benign-infix-table-as-map-literal", Benign: true, Doc: "benign patch P08_2", Edits: []Edit{
+		{File: "parser.go", Old: "func (p *parser) getInfixOpInfo(op string) infixOpInfo {\n\tswitch op {\n\tcase \"*\", \"/\", \"%\":\n\t\treturn infixOpInfo{precedence: 8, childCount: 2}\n\tcase \"+\", \"-\":\n\t\treturn infixOpInfo{precedence: 7, childCount: 2}\n\tcase \"!\":\n\t\treturn infixOpInfo{precedence: 6, childCount: 1}\n\tcase \"=\", \"==\", \"!=\", \"<\", \">\", \"<=\", \">=\":\n\t\treturn infixOpInfo{precedence: 5, childCount: 2}\n\tcase \"&\", \"&&\":\n\t\treturn infixOpInfo{precedence: 4, childCount: 2}\n\tcase \"|\", \"||\":\n\t\treturn infixOpInfo{precedence: 3, childCount: 2}\n\tcase \",\":\n\t\treturn infixOpInfo{precedence: 2, childCount: 0}\n\tcase \"(\", \")\":\n\t\treturn infixOpInfo{precedence: 1, childCount: 0}\n\tcase \"\":\n\t\treturn infixOpInfo{precedence: -1, childCount: 0}\n\tdefault:\n\t\treturn infixOpInfo{precedence: funcPrecedence, childCount: -1}\n\t}\n}\n", New: "var infixOpTable = map[string]infixOpInfo{\n\t\"*\":  {precedence: 8, childCount: 2},\n\t\"/\":  {precedence: 8, childCount: 2},\n\t\"%\":  {precedence: 8, childCount: 2},\n\t\"+\":  {precedence: 7, childCount: 2},\n\t\"-\":  {precedence: 7, childCount: 2},\n\t\"!\":  {precedence: 6, childCount: 1},\n\t\"=\":  {precedence: 5, childCount: 2},\n\t\"==\": {precedence: 5, childCount: 2},\n\t\"!=\": {precedence: 5, childCount: 2},\n\t\"<\":  {precedence: 5, childCount: 2},\n\t\">\":  {precedence: 5, childCount: 2},\n\t\"<=\": {precedence: 5, childCount: 2},\n\t\">=\": {precedence: 5, childCount: 2},\n\t\"&\":  {precedence: 4, childCount: 2},\n\t\"&&\": {precedence: 4, childCount: 2},\n\t\"|\":  {precedence: 3, childCount: 2},\n\t\"||\": {precedence: 3, childCount: 2},\n\t\",\":  {precedence: 2, childCount: 0},\n\t\"(\":  {precedence: 1, childCount: 0},\n\t\")\":  {precedence: 1, childCount: 0},\n\t\"\":   {precedence: -1, childCount: 0},\n}\n\nfunc (p *parser) getInfixOpInfo(op string) infixOpInfo {\n\tif info, ok := infixOpTable[op]; ok {\n\t\treturn info\n\t}\n\treturn infixOpInfo{precedence: funcPrecedence, childCount: -1}\n}\n"}}},
+	{Name: "infix-map-table-percent-at-additive-level", Rule: "R-PREC", Edits: []Edit{
+		{File: "parser.go", Old: "func (p *parser) getInfixOpInfo(op string) infixOpInfo {\n\tswitch op {\n\tcase \"*\", \"/\", \"%\":\n\t\treturn infixOpInfo{precedence: 8, childCount: 2}\n\tcase \"+\", \"-\":\n\t\treturn infixOpInfo{precedence: 7, childCount: 2}\n\tcase \"!\":\n\t\treturn infixOpInfo{precedence: 6, childCount: 1}\n\tcase \"=\", \"==\", \"!=\", \"<\", \">\", \"<=\", \">=\":\n\t\treturn infixOpInfo{precedence: 5, childCount: 2}\n\tcase \"&\", \"&&\":\n\t\treturn infixOpInfo{precedence: 4, childCount: 2}\n\tcase \"|\", \"||\":\n\t\treturn infixOpInfo{precedence: 3, childCount: 2}\n\tcase \",\":\n\t\treturn infixOpInfo{precedence: 2, childCount: 0}\n\tcase \"(\", \")\":\n\t\treturn infixOpInfo{precedence: 1, childCount: 0}\n\tcase \"\":\n\t\treturn infixOpInfo{precedence: -1, childCount: 0}\n\tdefault:\n\t\treturn infixOpInfo{precedence: funcPrecedence, childCount: -1}\n\t}\n}\n", New: "var infixOpTable = map[string]infixOpInfo{\n\t\"*\":  {precedence: 8, childCount: 2},\n\t\"/\":  {precedence: 8, childCount: 2},\n\t\"%\":  {precedence: 7, childCount: 2},\n\t\"+\":  {precedence: 7, childCount: 2},\n\t\"-\":  {precedence: 7, childCount: 2},\n\t\"!\":  {precedence: 6, childCount: 1},\n\t\"=\":  {precedence: 5, childCount: 2},\n\t\"==\": {precedence: 5, childCount: 2},\n\t\"!=\": {precedence: 5, childCount: 2},\n\t\"<\":  {precedence: 5, childCount: 2},\n\t\">\":  {precedence: 5, childCount: 2},\n\t\"<=\": {precedence: 5, childCount: 2},\n\t\">=\": {precedence: 5, childCount: 2},\n\t\"&\":  {precedence: 4, childCount: 2},\n\t\"&&\": {precedence: 4, childCount: 2},\n\t\"|\":  {precedence: 3, childCount: 2},\n\t\"||\": {precedence: 3, childCount: 2},\n\t\",\":  {precedence: 2, childCount: 0},\n\t\"(\":  {precedence: 1, childCount: 0},\n\t\")\":  {precedence: 1, childCount: 0},\n\t\"\":   {precedence: -1, childCount: 0},\n}\n\nfunc (p *parser) getInfixOpInfo(op string) infixOpInfo {\n\tif info, ok := infixOpTable[op]; ok {\n\t\treturn info\n\t}\n\treturn infixOpInfo{precedence: funcPrecedence, childCount: -1}\n}\n"}}},
+	{Name: "infix-map-table-extended-at-run-time", Rule: "R-PREC", Edits: []Edit{
+		{File: "parser.go", Old: "func (p *parser) getInfixOpInfo(op string) infixOpInfo {\n\tswitch op {\n\tcase \"*\", \"/\", \"%\":\n\t\treturn infixOpInfo{precedence: 8, childCount: 2}\n\tcase \"+\", \"-\":\n\t\treturn infixOpInfo{precedence: 7, childCount: 2}\n\tcase \"!\":\n\t\treturn infixOpInfo{precedence: 6, childCount: 1}\n\tcase \"=\", \"==\", \"!=\", \"<\", \">\", \"<=\", \">=\":\n\t\treturn infixOpInfo{precedence: 5, childCount: 2}\n\tcase \"&\", \"&&\":\n\t\treturn infixOpInfo{precedence: 4, childCount: 2}\n\tcase \"|\", \"||\":\n\t\treturn infixOpInfo{precedence: 3, childCount: 2}\n\tcase \",\":\n\t\treturn infixOpInfo{precedence: 2, childCount: 0}\n\tcase \"(\", \")\":\n\t\treturn infixOpInfo{precedence: 1, childCount: 0}\n\tcase \"\":\n\t\treturn infixOpInfo{precedence: -1, childCount: 0}\n\tdefault:\n\t\treturn infixOpInfo{precedence: funcPrecedence, childCount: -1}\n\t}\n}\n", New: "var infixOpTable = map[string]infixOpInfo{\n\t\"*\":  {precedence: 8, childCount: 2},\n\t\"/\":  {precedence: 8, childCount: 2},\n\t\"%\":  {precedence: 8, childCount: 2},\n\t\"+\":  {precedence: 7, childCount: 2},\n\t\"-\":  {precedence: 7, childCount: 2},\n\t\"!\":  {precedence: 6, childCount: 1},\n\t\"=\":  {precedence: 5, childCount: 2},\n\t\"==\": {precedence: 5, childCount: 2},\n\t\"!=\": {precedence: 5, childCount: 2},\n\t\"<\":  {precedence: 5, childCount: 2},\n\t\">\":  {precedence: 5, childCount: 2},\n\t\"<=\": {precedence: 5, childCount: 2},\n\t\">=\": {precedence: 5, childCount: 2},\n\t\"&\":  {precedence: 4, childCount: 2},\n\t\"&&\": {precedence: 4, childCount: 2},\n\t\"|\":  {precedence: 3, childCount: 2},\n\t\"||\": {precedence: 3, childCount: 2},\n\t\",\":  {precedence: 2, childCount: 0},\n\t\"(\":  {precedence: 1, childCount: 0},\n\t\")\":  {precedence: 1, childCount: 0},\n\t\"\":   {precedence: -1, childCount: 0},\n}\n\nfunc (p *parser) getInfixOpInfo(op string) infixOpInfo {\n\tif info, ok := infixOpTable[op]; ok {\n\t\treturn info\n\t}\n\treturn infixOpInfo{precedence: funcPrecedence, childCount: -1}\n}\n\nfunc init() { infixOpTable[\"^\"] = infixOpInfo{precedence: 9, childCount: 2} }\n"}}},
+}
+
+var keySetShapeWitnesses = []Witness{
+	{Name: "benign-unify-int-list-built-by-append", Benign: true, Doc: "benign patch P12_4", Edits: []Edit{
+		{File: "variable.go", Old: "\tcase []int32:\n\t\ttemp := make([]int64, len(v))\n\t\tfor i, iv := range v {\n\t\t\ttemp[i] = int64(iv)\n\t\t}\n\t\treturn temp\n", New: "\tcase []int32:\n\t\ttemp := make([]int64, 0, len(v))\n\t\tfor _, iv := range v {\n\t\t\ttemp = append(temp, int64(iv))\n\t\t}\n\t\treturn temp\n"}}},
+	{Name: "unify-int-list-built-by-append-skips-negatives", Rule: "R-UNIFY", Edits: []Edit{
+		{File: "variable.go", Old: "\tcase []int32:\n\t\ttemp := make([]int64, len(v))\n\t\tfor i, iv := range v {\n\t\t\ttemp[i] = int64(iv)\n\t\t}\n\t\treturn temp\n", New: "\tcase []int32:\n\t\ttemp := make([]int64, 0, len(v))\n\t\tfor _, iv := range v {\n\t\t\tif iv < 0 {\n\t\t\t\tcontinue\n\t\t\t}\n\t\t\ttemp = append(temp, int64(iv))\n\t\t}\n\t\treturn temp\n"}}},
+	{Name: "unify-int-list-built-by-append-starts-with-zeros", Rule: "R-UNIFY", Edits: []Edit{
+		{File: "variable.go", Old: "\tcase []int32:\n\t\ttemp := make([]int64, len(v))\n\t\tfor i, iv := range v {\n\t\t\ttemp[i] = int64(iv)\n\t\t}\n\t\treturn temp\n", New: "\tcase []int32:\n\t\ttemp := make([]int64, len(v))\n\t\tfor _, iv := range v {\n\t\t\ttemp = append(temp, int64(iv))\n\t\t}\n\t\treturn temp\n"}}},
+	{Name: "benign-key-set-of-empty-structs", Benign: true, Doc: "benign patch P12_2", Edits: []Edit{
+		{File: "variable.go", Old: "	keySet := make(map[VariableKey]bool, size)\n	for _, key := range cc.VariableKeyMap {\n		keySet[key] = true\n	}\n	for i := 1; i <= size; i++ {\n		key := VariableKey(i)\n		if !keySet[key] {", New: "	keySet := make(map[VariableKey]struct{}, size)\n	for _, key := range cc.VariableKeyMap {\n		keySet[key] = empty\n	}\n	for i := 1; i <= size; i++ {\n		key := VariableKey(i)\n		if _, used := keySet[key]; !used {"}}},
+	{Name: "key-set-of-empty-structs-takes-a-used-key", Rule: "R-KEYSTABLE", Edits: []Edit{
+		{File: "variable.go", Old: "	keySet := make(map[VariableKey]bool, size)\n	for _, key := range cc.VariableKeyMap {\n		keySet[key] = true\n	}\n	for i := 1; i <= size; i++ {\n		key := VariableKey(i)\n		if !keySet[key] {", New: "	keySet := make(map[VariableKey]struct{}, size)\n	for _, key := range cc.VariableKeyMap {\n		keySet[key] = empty\n	}\n	for i := 1; i <= size; i++ {\n		key := VariableKey(i)\n		if _, used := keySet[key]; used {"}}},
+}
+
+var piecewiseListWitnesses = []Witness{
+	{Name: "benign-string-list-elements-written-in-pieces", Benign: true, Doc: "benign patch P11_3", Edits: []Edit{
+		{File: "util.go", Old: "			sb.WriteString(`\"` + s + `\"`)", New: "			sb.WriteByte('\"')\n			sb.WriteString(s)\n			sb.WriteByte('\"')"}}},
+	{Name: "string-list-elements-in-pieces-lose-the-closing-quote", Rule: "R-LEAFTYPES", Edits: []Edit{
+		{File: "util.go", Old: "			sb.WriteString(`\"` + s + `\"`)", New: "			sb.WriteByte('\"')\n			sb.WriteString(s)"}}},
+	{Name: "string-list-elements-in-pieces-closing-quote-only-for-short-ones", Rule: "R-LEAFTYPES", Edits: []Edit{
+		{File: "util.go", Old: "			sb.WriteString(`\"` + s + `\"`)", New: "			sb.WriteByte('\"')\n			sb.WriteString(s)\n			if len(s) < 64 {\n				sb.WriteByte('\"')\n			}"}}},
+}
+
+var capturedLenWitnesses = []Witness{
+	{Name: "benign-lexer-length-hoisted-into-a-captured-variable", Benign: true, Doc: "benign patch P06_4", Edits: []Edit{
+		{File: "parser.go", Old: "	A, i := []rune(p.source), 0\n", New: "	A, i := []rune(p.source), 0\n	n := len(A)\n"},
+		{File: "parser.go", Old: "			start := i\n			for ; i < len(A); i++ {\n				if A[i] == '\\n' {", New: "			start := i\n			for ; i < n; i++ {\n				if A[i] == '\\n' {"}}},
+	{Name: "lexer-hoisted-length-is-one-too-large", Rule: "R-PANIC", Edits: []Edit{
+		{File: "parser.go", Old: "	A, i := []rune(p.source), 0\n", New: "	A, i := []rune(p.source), 0\n	n := len(A) + 1\n"},
+		{File: "parser.go", Old: "			start := i\n			for ; i < len(A); i++ {\n				if A[i] == '\\n' {", New: "			start := i\n			for ; i < n; i++ {\n				if A[i] == '\\n' {"}}},
+	{Name: "lexer-hoisted-length-of-a-slice-that-is-cut-later", Rule: "R-PANIC", Edits: []Edit{
+		{File: "parser.go", Old: "	A, i := []rune(p.source), 0\n", New: "	A, i := []rune(p.source), 0\n	n := len(A)\n	if n > 4096 {\n		A = A[:4096]\n	}\n"},
+		{File: "parser.go", Old: "			start := i\n			for ; i < len(A); i++ {\n				if A[i] == '\\n' {", New: "			start := i\n			for ; i < n; i++ {\n				if A[i] == '\\n' {"}}},
+}
+
+// the comparability guard of eq/ne after the D17 repair
+var valueWalkWitnesses = []Witness{
+	{Name: "comparability-guard-trusts-the-type", Rule: "R-IFACEEQ", Doc: "revert of the D17 repair", Edits: []Edit{
+		{File: "operator.go", Old: "	return comparableValue(reflect.ValueOf(v))\n}", New: "	return reflect.TypeOf(v).Comparable()\n}"}}},
+	{Name: "value-walk-forgets-arrays", Rule: "R-IFACEEQ", Edits: []Edit{
+		{File: "operator.go", Old: "	case reflect.Array:\n		for i := 0; i < v.Len(); i++ {\n			if !comparableValue(v.Index(i)) {\n				return false\n			}\n		}\n", New: ""}}},
+	{Name: "value-walk-looks-at-the-first-field-only", Rule: "R-IFACEEQ", Edits: []Edit{
+		{File: "operator.go", Old: "		for i := 0; i < v.NumField(); i++ {\n			if !comparableValue(v.Field(i)) {\n				return false\n			}\n		}", New: "		for i := 0; i < v.NumField(); i++ {\n			if !comparableValue(v.Field(i)) {\n				return false\n			}\n			break\n		}"}}},
+	{Name: "value-walk-accepts-any-interface", Rule: "R-IFACEEQ", Edits: []Edit{
+		{File: "operator.go", Old: "		return v.IsNil() || comparableValue(v.Elem())", New: "		return true"}}},
+	{Name: "benign-value-walk-cases-reordered", Benign: true, Edits: []Edit{
+		{File: "operator.go", Old: "	case reflect.Interface:\n		return v.IsNil() || comparableValue(v.Elem())\n	case reflect.Array:\n		for i := 0; i < v.Len(); i++ {\n			if !comparableValue(v.Index(i)) {\n				return false\n			}\n		}\n", New: "	case reflect.Array:\n		for i := 0; i < v.Len(); i++ {\n			if !comparableValue(v.Index(i)) {\n				return false\n			}\n		}\n	case reflect.Interface:\n		if v.IsNil() {\n			return true\n		}\n		return comparableValue(v.Elem())\n"}}},
+}
+
+// ---- R-SCMUST -------------------------------------------------------------------
+//
+// R-SCJUMP says the short-circuit jump is taken ONLY under (!b && scIfFalse) || (b && scIfTrue). This is the converse:
+// a step's result is pushed (evaluation goes on with the next operand) only when the result is not a bool, or the
+// matching flag test came out false. Without it, short-circuiting can be switched off altogether: well-typed programs
+// keep their values (the operator is then applied to all operands), the suite stays green, but `(and false (/ 1 0))`
+// fails and every "skipped" operand is fetched.
+func ruleScMust(w *World, r *Report, l *evalLoop) {
+	const rule = "R-SCMUST"
+	r.Rule(rule, "in Eval a step's result is pushed only if it is not a bool, or the flag that lets its value decide the parent is not set: a deciding operand always takes the short-circuit jump", 1)
+	scF, _ := w.ConstInt("scIfFalse")
+	scT, _ := w.ConstInt("scIfTrue")
+	var pushes []*ssa.Store
+	EachInstr(l.fn, func(in ssa.Instruction) {
+		st, ok := in.(*ssa.Store)
+		if !ok {
+			return
+		}
+		ia, ok := st.Addr.(*ssa.IndexAddr)
+		if !ok {
+			return
+		}
+		sl, ok := ia.X.Type().Underlying().(*types.Slice)
+		if !ok || typeNameOf(sl.Elem()) != "Value" {
+			return
+		}
+		// the push of the main loop stores the step result (a phi over the arms), not an operand copy
+		if _, isPhi := st.Val.(*ssa.Phi); !isPhi {
+			return
+		}
+		pushes = append(pushes, st)
+	})
+	if len(pushes) == 0 {
+		r.Unresolved(rule, "push of the step result not found in "+w.Name(l.fn))
+		return
+	}
+	isBoolAssert := func(v ssa.Value, idx int) bool {
+		ex, ok := v.(*ssa.Extract)
+		if !ok || ex.Index != idx {
+			return false
+		}
+		ta, ok := ex.Tuple.(*ssa.TypeAssert)
+		if !ok {
+			return false
+		}
+		bt, ok := ta.AssertedType.Underlying().(*types.Basic)
+		return ok && bt.Kind() == types.Bool
+	}
+	// path-sensitive walk from the bool assertion of the step result to the push: the asserted value b is tested more
+	// than once (`(!b && …) || (b && …)`), so only the edges consistent with what is already known about b are followed
+	for _, st := range pushes {
+		var ta *ssa.TypeAssert
+		for _, ref := range referrers(st.Val) {
+			if x, ok := ref.(*ssa.TypeAssert); ok && x.CommaOk {
+				if bt, okb := x.AssertedType.Underlying().(*types.Basic); okb && bt.Kind() == types.Bool {
+					ta = x
+				}
+			}
+		}
+		if ta == nil {
+			r.Fail(rule, w.InstrPos(st), w.Name(l.fn), "os[osTop+1] = res (evaluation goes on)", "the pushed result is never tested for being a deciding bool")
+			continue
+		}
+		type state struct {
+			b               *ssa.BasicBlock
+			isBool, notBool bool
+			bv              int8 // 0 unknown, 1 true, 2 false
+			fFoff, fToff    bool
+		}
+		start := state{b: ta.Block()}
+		seen := map[state]bool{start: true}
+		stack := []state{start}
+		var bad *state
+		for len(stack) > 0 && bad == nil {
+			x := stack[len(stack)-1]
+			stack = stack[:len(stack)-1]
+			if x.b == st.Block() && x.b != ta.Block() {
+				if !(x.notBool || (x.bv == 1 && x.fToff) || (x.bv == 2 && x.fFoff)) {
+					cp := x
+					bad = &cp
+				}
+				continue
+			}
+			iff, isIf := x.b.Instrs[len(x.b.Instrs)-1].(*ssa.If)
+			for k, sx := range x.b.Succs {
+				nx := x
+				nx.b = sx
+				if isIf && x.b.Succs[0] != x.b.Succs[1] {
+					cond, truth := stripNot(iff.Cond, k == 0)
+					switch {
+					case isBoolAssert(cond, 1) && cond.(*ssa.Extract).Tuple == ssa.Value(ta):
+						if truth {
+							nx.isBool = true
+						} else {
+							nx.notBool = true
+						}
+					case isBoolAssert(cond, 0) && cond.(*ssa.Extract).Tuple == ssa.Value(ta):
+						want := int8(2)
+						if truth {
+							want = 1
+						}
+						if x.bv != 0 && x.bv != want {
+							continue // infeasible: b was seen with the other value
+						}
+						nx.bv = want
+					default:
+						if m, kc, eq, ok := flagMaskTest(cond); ok && m == kc && eq != truth {
+							if m == scF {
+								nx.fFoff = true
+							}
+							if m == scT {
+								nx.fToff = true
+							}
+						}
+					}
+				}
+				// a new current node: what was learnt about the previous node's flags is void
+				for _, in := range sx.Instrs {
+					phi, isPhi := in.(*ssa.Phi)
+					if !isPhi {
+						break
+					}
+					if typeNameOf(deref(phi.Type())) == "node" && sx != st.Block() {
+						nx.fFoff, nx.fToff = false, false
+					}
+				}
+				if len(sx.Succs) == 0 && sx != st.Block() {
+					continue // a return
+				}
+				if !(l.hdr.Dominates(sx) && reachable(sx, l.hdr)) {
+					continue // left the main loop
+				}
+				if sx == l.hdr {
+					continue // next step
+				}
+				if !seen[nx] {
+					seen[nx] = true
+					stack = append(stack, nx)
+				}
+			}
+		}
+		why := ""
+		if bad != nil {
+			why = fmt.Sprintf(" (a path reaches the push with bool=%v value=%d scIfFalse-off=%v scIfTrue-off=%v)", bad.isBool, bad.bv, bad.fFoff, bad.fToff)
+		}
+		r.Check(bad == nil, rule, w.InstrPos(st), w.Name(l.fn), "os[osTop+1] = res (evaluation goes on)", "only for a non-bool result, or a bool whose deciding flag is not set", "a bool result whose flag says it decides the parent can be pushed instead of jumping: short-circuit evaluation is (partly) switched off — later operands are evaluated, their failures and fetches become visible"+why)
+	}
+}
+
+var scMustWitnesses = []Witness{
+	{Name: "short-circuit-only-for-non-bool-results", Rule: "R-SCMUST", Doc: "mechanical mutant (negated condition) that survives the suite and every earlier rule", Edits: []Edit{
+		{File: "engine.go", Old: "		if b, ok := res.(bool); ok {\n			for (!b && curt.flag&scIfFalse == scIfFalse) ||\n				(b && curt.flag&scIfTrue == scIfTrue) {\n				i = curt.scIdx\n				if i == -1 {\n					return\n				}\n\n				curt = nodes[i]\n				osTop = curt.osTop - 1\n			}\n		}\n\n		os[osTop+1], osTop = res, osTop+1\n	}\n	return os[0], nil", New: "		if b, ok := res.(bool); !ok {\n			for (!b && curt.flag&scIfFalse == scIfFalse) ||\n				(b && curt.flag&scIfTrue == scIfTrue) {\n				i = curt.scIdx\n				if i == -1 {\n					return\n				}\n\n				curt = nodes[i]\n				osTop = curt.osTop - 1\n			}\n		}\n\n		os[osTop+1], osTop = res, osTop+1\n	}\n	return os[0], nil"}}},
+	{Name: "true-results-never-short-circuit", Rule: "R-SCMUST", Edits: []Edit{
+		{File: "engine.go", Old: "			for (!b && curt.flag&scIfFalse == scIfFalse) ||\n				(b && curt.flag&scIfTrue == scIfTrue) {\n				i = curt.scIdx\n				if i == -1 {\n					return\n				}\n\n				curt = nodes[i]\n				osTop = curt.osTop - 1\n			}\n		}\n\n		os[osTop+1], osTop = res, osTop+1\n	}\n	return os[0], nil", New: "			for !b && curt.flag&scIfFalse == scIfFalse {\n				i = curt.scIdx\n				if i == -1 {\n					return\n				}\n\n				curt = nodes[i]\n				osTop = curt.osTop - 1\n			}\n		}\n\n		os[osTop+1], osTop = res, osTop+1\n	}\n	return os[0], nil"}}},
+	{Name: "short-circuit-climbs-one-level-only", Rule: "R-SCMUST", Edits: []Edit{
+		{File: "engine.go", Old: "			for (!b && curt.flag&scIfFalse == scIfFalse) ||\n				(b && curt.flag&scIfTrue == scIfTrue) {\n				i = curt.scIdx\n				if i == -1 {\n					return\n				}\n\n				curt = nodes[i]\n				osTop = curt.osTop - 1\n			}\n		}\n\n		os[osTop+1], osTop = res, osTop+1\n	}\n	return os[0], nil", New: "			if (!b && curt.flag&scIfFalse == scIfFalse) ||\n				(b && curt.flag&scIfTrue == scIfTrue) {\n				i = curt.scIdx\n				if i == -1 {\n					return\n				}\n\n				curt = nodes[i]\n				osTop = curt.osTop - 1\n			}\n		}\n\n		os[osTop+1], osTop = res, osTop+1\n	}\n	return os[0], nil"}}},
+}
+
+var wave9Witnesses15 = []Witness{
+	{Name: "infix-stack-mark-narrowed-to-int8", Rule: "R-WIDTH", Doc: "seeded change C15-i", Edits: []Edit{
+		{File: "parser.go", Old: "		l int   // output stack size", New: "		l int8  // output stack size"},
+		{File: "parser.go", Old: "					cnt = len(outputStack) - top.l", New: "					cnt = len(outputStack) - int(top.l)"},
+		{File: "parser.go", Old: "			operatorStack = append(operatorStack, op{t: car, l: len(outputStack)})\n		case lParen:\n			operatorStack = append(operatorStack, op{t: car, l: len(outputStack)})", New: "			operatorStack = append(operatorStack, op{t: car, l: int8(len(outputStack))})\n		case lParen:\n			operatorStack = append(operatorStack, op{t: car, l: int8(len(outputStack))})"}}},
+}
+
+var wave9Witnesses18 = []Witness{
+	{Name: "folding-replaces-and-or-by-its-only-non-constant-operand", Rule: "R-FOLDOK", Doc: "seeded change C18-i", Edits: []Edit{
+		{File: "compiler.go", Old: "				root.children = nil\n				return\n			}\n		}\n	}\n\n	params := make([]Value, len(root.children))", New: "				root.children = nil\n				return\n			}\n		}\n		var rest []*astNode\n		for _, child := range root.children {\n			if child.node.getNodeType() != constant {\n				rest = append(rest, child)\n			}\n		}\n		if len(rest) == 1 {\n			*root = *rest[0]\n			return\n		}\n	}\n\n	params := make([]Value, len(root.children))"}}},
 }
